@@ -161,6 +161,9 @@ func shrink(c *Ctx, j Job, key string) (*scn.Scenario, *Run, int) {
 	if _, ok := j.S.Rig["histories"]; ok {
 		return shrinkHistories(cur, curRun, key, fires, steps)
 	}
+	if _, ok := j.S.Rig["tasks"]; ok {
+		return shrinkSchedule(cur, curRun, key, fires, steps)
+	}
 	for progress := true; progress && steps < 300; {
 		progress = false
 		for _, t := range transforms(cur) {
@@ -229,6 +232,47 @@ func shrinkHistories(cur *scn.Scenario, curRun *Run, key string, fires func(*scn
 			chunk /= 2
 		} else if chunk > len(opsOf(cur)) {
 			chunk = len(opsOf(cur))
+		}
+	}
+	return cur, curRun, steps
+}
+
+// shrinkSchedule turns the seeded schedule of a controlled-concurrency run into an explicit
+// decision list and removes context switches while the same key keeps firing.
+func shrinkSchedule(cur *scn.Scenario, curRun *Run, key string, fires func(*scn.Scenario) (*Run, bool), steps int) (*scn.Scenario, *Run, int) {
+	var sched []interface{}
+	for _, e := range curRun.Events {
+		if e.Ev == "cc" {
+			sched, _ = e.Info["schedule"].([]interface{})
+		}
+	}
+	if sched == nil {
+		return cur, curRun, steps
+	}
+	t := cloneScn(cur)
+	t.Rig["schedule"] = sched
+	r, ok := fires(t)
+	steps++
+	if !ok {
+		return cur, curRun, steps // the explicit form does not reproduce: keep the seeded one
+	}
+	cur, curRun = t, r
+	for chunk := len(sched) / 2; chunk >= 1 && steps < 300; {
+		sch := cur.Rig["schedule"].([]interface{})
+		removed := false
+		for start := 1; start+chunk <= len(sch) && steps < 300; start += chunk { // keep decision 0 (who starts)
+			cand := append(append([]interface{}{}, sch[:start]...), sch[start+chunk:]...)
+			t := cloneScn(cur)
+			t.Rig["schedule"] = cand
+			r, ok := fires(t)
+			steps++
+			if ok {
+				cur, curRun, removed = t, r, true
+				break
+			}
+		}
+		if !removed {
+			chunk /= 2
 		}
 	}
 	return cur, curRun, steps
